@@ -36,6 +36,11 @@ def _jsonable(x):
     return repr(x)
 
 
+def contract_error():
+    from .cexpr import ContractError
+    return ContractError
+
+
 class Run:
     def __init__(self, prop, tier='quick', seed=None, level='other'):
         self.prop = prop; self.tier = tier
@@ -125,7 +130,13 @@ class Run:
         for a, r in zip(uniq, res):
             if r is None:
                 continue
-            bad = judge.judge(K, cf.specs, sig, a, r, consts)
+            try:
+                bad = judge.judge(K, cf.specs, sig, a, r, consts)
+            except contract_error() as ex:
+                msg = 'contract of %s names something the current code does not have (%s): the sidecar has drifted from the code; no verdict' % (fname, str(ex)[:160])
+                if msg not in self.undecided:
+                    self.undecided.append(msg)
+                break
             if bad:
                 fails.append((a, bad, r))
         self.refuter_hits[(relpath, fname)] = fails
@@ -142,6 +153,11 @@ class Run:
         # bounded differential runs first (they are also the refuter for failed obligations): a function whose real code
         # already violates its contract on a concrete input gets short solver budgets (the witness exists)
         generators = generators or {}
+        # the ASTs are loaded first: renamed parameters / locals are mapped onto the names the sidecar uses before anything reads the contracts
+        try:
+            cproof.load_tus(sorted({r for r, _ in tasks}))
+        except Exception:
+            self.broken.append('loading the C sources failed: ' + traceback.format_exc()[-1500:]); return
         for (relpath, fn) in tasks:
             g = generators.get((relpath, fn))
             if g is None:
@@ -226,7 +242,10 @@ class Run:
                 for a, r in zip(cands, res):
                     if r is None:
                         continue
-                    bad = judge.judge(K, cf.specs, sig, a, r, consts)
+                    try:
+                        bad = judge.judge(K, cf.specs, sig, a, r, consts)
+                    except contract_error():
+                        bad = None
                     if bad:
                         witness = dict(function=fn, file=relpath, args=a, source='solver counter-model replayed on the real kernel (clang ASan+UBSan)',
                                        observed=dict(ret=r.get('ret'), arrays=r.get('arrays'), sanitizer=r.get('san', '')[:1500]), failed=bad)
